@@ -158,8 +158,19 @@ def compare(a, b, path=""):
     return None if a == b else (path or "/")
 
 
-def operand_arrays(v, depth=0):
-    """Digest of the arrays of an operand (for the immutability checks)."""
+def has_sparse(v, depth=0):
+    import scipy.sparse as sp
+    if sp.issparse(v):
+        return True
+    if isinstance(v, (list, tuple)) and depth < 3:
+        return any(has_sparse(x, depth + 1) for x in v)
+    return False
+
+
+def operand_arrays(v, depth=0, canonical=False):
+    """Digest of the arrays of an operand (for the immutability checks).
+    canonical=True: sparse matrices by value (sorted, duplicates summed)
+    instead of by their raw storage arrays."""
     from skfem.mesh import Mesh
     from skfem.assembly.basis import AbstractBasis
     from skfem.assembly.form.coo_data import COOData
@@ -173,13 +184,14 @@ def operand_arrays(v, depth=0):
     if isinstance(v, np.ndarray):
         return digest.jdigest(arr(v))
     if sp.issparse(v):
-        if hasattr(v, "indptr"):
+        if hasattr(v, "indptr") and not canonical:
             return digest.jdigest(digest.sparse_raw(v))
         return digest.jdigest(digest.sparse_canon(v))
     if isinstance(v, COOData):
         return digest.jdigest(canon(v))
     if isinstance(v, (list, tuple)) and depth < 3:
-        return digest.hbytes(*[operand_arrays(x, depth + 1) or "-" for x in v])
+        return digest.hbytes(*[operand_arrays(x, depth + 1, canonical) or "-"
+                               for x in v])
     if type(v).__name__ == "MappingAffine" or \
             type(v).__name__ == "MappingIsoparametric":
         return digest.jdigest(mesh(v.mesh))
